@@ -9,7 +9,10 @@
 #include "verif_ctx.h"
 #include "myth_sched_func.h"
 
-struct myth_running_env ENV;
+struct myth_running_env ENVS2[2];
+#define ENV   (ENVS2[0])               /* the worker the operation starts on */
+#define ENV_B (ENVS2[1])               /* the worker a thread may have migrated to while inside its start function */
+int g_migrated;
 struct myth_thread PARENT, NEW;
 long STKBLOCK[64];                      /* the stack block handed out by the (separately proved, C12) stack allocator */
 #define STK_TOP ((void *)&STKBLOCK[62])
@@ -22,7 +25,17 @@ int g_cleanup_calls, g_pushed_parent, g_pushed_new, g_ctx_kind, g_desc_calls, g_
 size_t g_stack_req;
 
 /* the user's start function */
-static void * verif_user_fn(void * a) { g_fn_calls++; g_fn_arg = a; return g_fn_ret; }
+static void * verif_user_fn(void * a) {
+  g_fn_calls++; g_fn_arg = a;
+  if (nondet_bool()) {
+    /* the function blocked or spawned and its continuation was stolen: it returns on ANOTHER worker, while the worker it
+       started on runs some other thread (or none).  Anything read from the old worker's descriptor is stale now. */
+    g_migrated = 1; g_envs_sz = 2; g_worker_rank = 1; ENV_B.rank = 1;
+    ENV_B.this_thread = ENV.this_thread; if (ENV.this_thread) ENV.this_thread->env = &ENV_B;
+    ENV.this_thread = nondet_bool() ? &PARENT : 0;
+  }
+  return g_fn_ret;
+}
 
 /* ---- stubs with bodies (they return pointers the code dereferences) ---- */
 myth_thread_t verif_new_desc(myth_running_env_t env) {
@@ -69,7 +82,7 @@ void suspend_resume_contract(myth_context_t from, myth_context_t to)
   __CPROVER_assigns(ENV.this_thread) __CPROVER_ensures(1);
 
 static void world(void) {
-  g_envs = &ENV; g_envs_sz = 1; g_worker_rank = 0; ENV.rank = 0; ENV.this_thread = &PARENT; PARENT.env = &ENV;
+  g_envs = ENVS2; g_envs_sz = 1; g_worker_rank = 0; ENV.rank = 0; g_migrated = 0; ENV.this_thread = &PARENT; PARENT.env = &ENV;
   g_fn_calls = g_cleanup_calls = g_pushed_parent = g_pushed_new = g_ctx_kind = g_desc_calls = g_stack_calls = 0;
   g_ctx_saved = 0; g_switch_count = 0; g_in_callback = 0; g_jumped = 0;
   g_arg = nondet_bool() ? (void *)&STKBLOCK[0] : 0; g_fn_ret = nondet_bool() ? (void *)&STKBLOCK[1] : 0;
